@@ -123,6 +123,9 @@ pub fn run(a: &Args) {
     }
     // shapes the state machine might not expect: several roots, text first / last, an element called like the synthetic
     // wrapper, stray end tags, a second document with another root (used as second document below)
+    seeds.push(b"\xEF\xBB\xBF<a><b/></a>".to_vec());
+    seeds.push(b"\xEF\xBB\xBF<?xml version=\"1.0\"?><a p=\"1\">t</a>".to_vec());
+    seeds.push(b"\xFF\xFE<\x00a\x00/\x00>\x00".to_vec());
     for d in ["<a/><b/>", "<a/><a/>", "text<a/>", "<a/>text", "<root><root/></root>", "<root/>", "</a>", "<a></a></a>", "<a></b>",
               "<a><b></a></b>", "<b><a/></b>", "<r><a/></r><r><b/></r>", "<?xml version='1.0'?><!DOCTYPE a [<!ENTITY e 'v'>]><a>&e;</a>"] {
         seeds.push(d.as_bytes().to_vec());
